@@ -130,8 +130,8 @@ fn check_pattern(t: &mut Tally, pat: &str, names: &[String]) {
 }
 
 const BASES: [&str; 8] = ["", "p", "pk", "p-q", "p-q-r", "é", "e\u{301}", "p*"];
-const BOUNDS: [&str; 5] = ["", "1", "2", "1.5", "2nb1"];
-const VERSIONS: [&str; 7] = ["", "0", "1", "1.5", "2", "2nb1", "3"];
+const BOUNDS: [&str; 7] = ["", "1", "2", "1.5", "2nb1", "1.0", "2alpha"];
+const VERSIONS: [&str; 9] = ["", "0", "1", "1.5", "2", "2nb1", "3", "1.0.0", "2beta"];
 
 fn structured_names() -> Vec<String> {
     let mut bases: BTreeSet<String> = BTreeSet::new();
@@ -213,7 +213,7 @@ fn main() {
     let mut pats: Vec<String> = vec![];
     {
         let k = OPS.len() * BOUNDS.len();
-        let depth = run.pick(2, 3);
+        let depth = run.pick(3, 3);
         for b in BASES {
             let mut pre = vec![];
             let mut visit = |s: &[usize]| {
@@ -242,7 +242,7 @@ fn main() {
     });
 
     // (b)
-    let l = run.pick(6, 8);
+    let l = run.pick(7, 9);
     let cnames = char_names();
     run.bound(format!(
         "(b) all {} strings of length <= {} over {:?} x {} names",
